@@ -1384,7 +1384,8 @@ func (w *World) Take(tr Trans) {
 	tid := -1
 	if rec {
 		if tr.Clock {
-			others = true
+			// time passing while nobody can move is part of a sleeping loop
+			others = tr.Late
 		} else {
 			tid = tr.T.ID
 			for _, x := range w.enabled {
@@ -1445,7 +1446,10 @@ func (w *World) SpinCheck() string {
 	if n < 30 {
 		return ""
 	}
-	tid := w.spin[n-1].tid
+	tid := -1
+	for i := n - 1; i >= 0 && tid < 0; i-- {
+		tid = w.spin[i].tid
+	}
 	if tid < 0 {
 		return ""
 	}
@@ -1453,7 +1457,7 @@ func (w *World) SpinCheck() string {
 		ok := true
 		for i := n - 3*p; i < n; i++ {
 			r := w.spin[i]
-			if r.tid != tid || r.others {
+			if (r.tid != tid && r.tid != -1) || r.others {
 				ok = false
 				break
 			}
